@@ -97,17 +97,19 @@ const CCYS: &[&str] = &[
 /// A quote level: mostly log-uniform over eight decades, sometimes a "round" value
 /// (special-cased fast paths are a classic place for a slip).
 fn gen_level(rng: &mut Rng) -> f64 {
-    if rng.chance(0.12) {
-        *rng.pick(&[1.0, 2.0, 0.5, 10.0, 100.0, 0.25, 4.0, 0.01])
-    } else {
-        rng.log_uniform(1e-4, 1e4)
+    match rng.below(100) {
+        0..=11 => *rng.pick(&[1.0, 2.0, 0.5, 10.0, 100.0, 0.25, 4.0, 0.01]),
+        12..=14 => rng.log_uniform(1e-12, 1e12),
+        _ => rng.log_uniform(1e-4, 1e4),
     }
 }
 
 fn gen_quote_num(rng: &mut Rng) -> Num {
     let v = gen_level(rng);
     let kind = rng.weighted(&[60, 25, 15]) as u8;
-    gen_num(rng, kind, v, 2, "")
+    // mostly one or two own variables, sometimes up to five
+    let maxvars = if rng.chance(0.1) { 5 } else { 2 };
+    gen_num(rng, kind, v, maxvars, "")
 }
 
 pub fn generate(rng: &mut Rng, tier: Tier) -> Plan {
@@ -400,7 +402,7 @@ pub fn generate(rng: &mut Rng, tier: Tier) -> Plan {
             steps.push(Step::Update { target: t, items });
             continue;
         }
-        match rng.weighted(&[40, 25, 12, 10, if forked { 0 } else { 6 }]) {
+        match rng.weighted(&[40, 25, 12, 10, if forked { 1 } else { 6 }]) {
             0 => {
                 let items = gen_valid_items(rng, &cur, float_only);
                 let t = target(rng, forked);
